@@ -667,9 +667,11 @@ func (c *Client) unmarshalProtoResponse(frame []byte) (proto.Message, *Metadata,
 	// The non-metadata format would have the proto bytes starting at position 8+nameLen,
 	// so the third uint32 (bytes 8:12) would be part of either the type name or proto data.
 	//
-	// If 12 + nameLen + potentialMetaLen <= totalLen, it's likely the metadata format.
-	// Also check that nameLen is reasonable (type names are typically < 256 bytes).
-	if nameLen > 0 && nameLen < 256 && potentialMetaLen >= 0 && (12+nameLen+potentialMetaLen) <= totalLen {
+	// If 12 + nameLen + potentialMetaLen <= totalLen, it is the metadata format: in a
+	// legacy frame bytes 8:12 start with the first byte of the type name (an ASCII
+	// letter, >= 0x41), so potentialMetaLen >= 0x41000000 exceeds any frame the reader
+	// lets through. No bound on nameLen is needed (long type names are legal).
+	if nameLen > 0 && potentialMetaLen >= 0 && (12+nameLen+potentialMetaLen) <= totalLen {
 		// Try metadata format first.
 		msg, md, _, err := c.serializer.UnmarshalBinaryWithMetadata(frame)
 		if err == nil {
